@@ -26,6 +26,7 @@ GEN = {
     "GenEndpoint3Full": {"tla": "GenEndpoint.tla", "cfg": "GenEndpoint3_full.cfg"},
     "GenLink": {"tla": "GenLink.tla", "cfg": "GenLink.cfg"},
     "GenBus2": {"tla": "GenBus2.tla", "cfg": "GenBus2.cfg"},
+    "GenBus2Two": {"tla": "GenBus2.tla", "cfg": "GenBus2_two.cfg", "simulate_thorough": "num=3000", "simulate_quick": "num=200", "depth": 300, "timeout": 3000},
     "GenLinkTwo": {"tla": "GenLink.tla", "cfg": "GenLink_two.cfg", "simulate_thorough": "num=4000", "simulate_quick": "num=300", "depth": 400, "timeout": 3000},
     "GenAlphabet": {"tla": "GenEndpoint.tla", "cfg": "GenAlphabet.cfg"},
     "GenDecode": {"tla": "GenDecode.tla", "cfg": "GenDecode.cfg"},
@@ -46,7 +47,7 @@ P("C01", "model_checking",
   models=["MC_Codec"], families=["seed", "requests", "responses", "vendor", "lengths"])
 P("C02", "model_checking",
   "non-trivial = decode/process of a byte string whose last byte is not the PEC of the rest (every <=8-bit burst of every corpus packet, wrong PEC bytes, random strings); distinct = distinct (context, input bytes)",
-  models=["MC_Pec", "MC_Decode", "MC_Endpoint", "MC_Link", "MC_Bus2"], gen_quick=["GenEndpoint", "GenLink", "GenBus2"], gen_thorough=["GenEndpoint", "GenLinkTwo", "GenBus2"], families=["bus", "corrupt"])
+  models=["MC_Pec", "MC_Decode", "MC_Endpoint", "MC_Link", "MC_Bus2"], gen_quick=["GenEndpoint", "GenLink", "GenBus2"], gen_thorough=["GenEndpoint", "GenLinkTwo", "GenBus2", "GenBus2Two"], families=["bus", "corrupt"])
 P("C03", "model_checking",
   "non-trivial = an encoder call that returned Ok (PEC of the output recomputed by the spec); distinct = distinct encoder arguments",
   models=["MC_Pec", "MC_Codec", "MC_Bus2"], gen=["GenAlphabet"], families=["tour", "identity", "vendor_enum", "forge", "lengths", "requests", "responses", "vendor"])
@@ -79,7 +80,7 @@ P("C12", "model_checking",
   models=["MC_Endpoint", "MC_Link"], gen_quick=["GenEndpoint", "GenEndpoint3", "GenEndpointSim", "GenLink"], gen_thorough=["GenEndpoint", "GenEndpoint3Full", "GenEndpointSim", "GenLinkTwo"], families=["bus", "forge", "vendor_enum", "identity", "history"])
 P("C13", "model_checking",
   "non-trivial = a processed Set/Get Endpoint ID packet (accepted, rejected or corrupted) or a direct accessor call; every event with a context is an evaluation of 'nothing else changes it'; distinct = distinct (context, input)",
-  models=["MC_Endpoint", "MC_Link", "MC_LinkReassign", "MC_Bus2"], gen_quick=["GenAlphabet", "GenEndpoint", "GenEndpoint3", "GenEndpointSim", "GenLink", "GenBus2"], gen_thorough=["GenAlphabet", "GenEndpoint", "GenEndpoint3Full", "GenEndpointSim", "GenLinkTwo", "GenBus2"], families=["bus", "tour", "history", "forge", "corrupt"])
+  models=["MC_Endpoint", "MC_Link", "MC_LinkReassign", "MC_Bus2"], gen_quick=["GenAlphabet", "GenEndpoint", "GenEndpoint3", "GenEndpointSim", "GenLink", "GenBus2"], gen_thorough=["GenAlphabet", "GenEndpoint", "GenEndpoint3Full", "GenEndpointSim", "GenLinkTwo", "GenBus2", "GenBus2Two"], families=["bus", "tour", "history", "forge", "corrupt"])
 P("C14", "model_checking",
   "non-trivial = process_packet on an accepted Get Vendor Defined Message Support request with selector < n; distinct = distinct (configuration, request)",
   models=["MC_Endpoint", "MC_Link"], gen_quick=["GenEndpoint", "GenEndpoint3", "GenEndpointSim", "GenLink"], gen_thorough=["GenEndpoint", "GenEndpoint3Full", "GenEndpointSim", "GenLinkTwo"], families=["bus", "vendor_enum", "forge"])
